@@ -236,7 +236,7 @@ def _emit_extracted(u, target, args, block, subst, emit):
             if last is None:
                 last = 1
             inserts.append((last, '\n' + text + '\n', 'before_tail'))
-        elif kind in ('loop_start', 'loop_end'):
+        elif kind in ('loop_start', 'loop_end', 'loop_after'):
             k = int(arg)
             if k < 1 or k > len(loops):
                 raise ExtractError(f'{where}: lost anchor loop #{k} in {relpath}::{fname} (function has {len(loops)} loops)')
@@ -247,6 +247,10 @@ def _emit_extracted(u, target, args, block, subst, emit):
             ci = _mc2(toks2, bi)
             if kind == 'loop_start':
                 inserts.append((br + 1, '\n' + text + '\n', f'loop{k}-start'))
+            elif kind == 'loop_after':
+                # right after the loop's closing brace (and the extra brace of an R4-generated block, if any)
+                off = toks2[ci].end
+                inserts.append((off, '\n' + text + '\n', f'loop{k}-after'))
             else:
                 # before a trailing generated counter increment `i__K += 1;` if present, else before the closing brace
                 close_off = toks2[ci].start
